@@ -307,13 +307,24 @@ func (g *gen) form(depth int) string {
 	case x < 73:
 		return "#(" + items() + ")"
 	case x < 83:
-		if g.r.Bool() {
+		// a reader macro applies to whatever object follows it: a token, t / nil, a string, a character, an integer
+		// in another radix, a bit vector, a list, a vector, or an object that itself has a prefix
+		switch g.r.Intn(6) {
+		case 0:
 			return "'" + g.sym()
+		case 1, 2:
+			return common.Pick(g.r, []string{"'", "`", "''", "'`", "' "}) + g.atom()
+		case 3:
+			return "'#(" + items() + ")"
+		default:
+			return "'(" + items() + ")"
 		}
-		return "'(" + items() + ")"
 	case x < 88:
 		return "#'" + g.sym()
 	case x < 94:
+		if g.r.Chance(30) {
+			return "`(" + g.sym() + " ," + g.atom() + " ,@" + g.sym() + " '" + g.atom() + ")"
+		}
 		return "`(" + g.sym() + " ," + g.sym() + " ,@" + g.sym() + ")"
 	default:
 		return "(" + items() + ")"
